@@ -234,6 +234,10 @@ def handle (cmd : String) (args : List Sexp) : Sexp :=
     match IR.Wire.stmtOf s with
     | some s => .str ("\n".intercalate (IR.cStmt (showFloat reprs) s))
     | none => Sexp.mk "bad-request" [.str "unknown-constructor"]
+  | "CPRINTM", [m, .list reprs] =>
+    match IR.Wire.moduleOf m with
+    | some m => .str (IR.cModule (showFloat reprs) m)
+    | none => Sexp.mk "bad-request" [.str "unknown-constructor"]
   | "CERT", [.atom "layered", m] =>
     -- C06, per function of a module, over every printed expression of the body:
     -- (Layered, LeftNested, StrictLayered, identsOk)
